@@ -13,7 +13,7 @@ LOG=$OUT/confirm.log; : > $LOG
 git checkout -q -- . && git clean -fdq -e target
 DEMO=$(python3 -c "import json;print(json.load(open('$OUT/meta.json'))['demo_cmd'])")
 # the demonstration must use THIS run's target dir, not the one its author used
-DEMO=$(echo "$DEMO" | sed -E 's#CARGO_TARGET_DIR=[^ ]+ ?##g; s#cd /tmp/seed/[A-Z0-9]+ *&& *##')
+DEMO=$(echo "$DEMO" | sed -E 's#CARGO_TARGET_DIR=[^ ]+ ?##g; s#cd /tmp/seed/[A-Za-z0-9]+ *&& *##')
 echo "demo_cmd: $DEMO" >> $LOG
 git apply $OUT/demo.diff || { echo "demo.diff does not apply" >> $LOG; exit 1; }
 touch src/lib.rs crates/ordinals/src/lib.rs crates/mockcore/src/lib.rs; ( eval "$DEMO" ) > $OUT/demo_clean.out 2>&1; echo "demo on clean tree: rc=$?" >> $LOG
